@@ -16,8 +16,10 @@ CONSTANT Quick
 Ops == {"STORE", "STORE_FILE", "GETSUB", "FIND_RQ", "FIND_RSP", "GET_RQ", "MOVE_RQ", "NSET", "NCREATE", "NACTION", "NEVENT", "NGET_RSP"}
 TSs == {"implicit", "explicit", "bigendian", "deflated"}
 MaxPdus == IF Quick THEN {0, 128, 16382} ELSE {0, 7, 128, 1030, 16382, 131072}
-Shapes == IF Quick THEN {"small", "vrmix", "nested", "private", "empty", "oddlen", "big20k"}
-          ELSE {"small", "vrmix", "nested", "private", "empty", "oddlen", "big20k", "longstr", "multi", "big1m"}
+\* ("deflatetail": a data set chosen so that its deflate stream has even length and ends in a 00 byte that carries data - the
+\*  byte a reader must not mistake for padding)
+Shapes == IF Quick THEN {"small", "vrmix", "nested", "private", "empty", "oddlen", "big20k", "deflatetail"}
+          ELSE {"small", "vrmix", "nested", "private", "empty", "oddlen", "big20k", "longstr", "multi", "big1m", "deflatetail"}
 StoreOps == {"STORE", "STORE_FILE", "GETSUB"}
 
 VARIABLES cfg, stage, payload
